@@ -345,6 +345,18 @@ struct StoreSession : public vw::Session {
       // because a containing block is a descendant of the endorsed one, hence retained whenever it can matter
       cmpl(altLine(*i, false), altLine(*j, false));
     }
+    // the other direction: every block N knows that is not outdated w.r.t. F's final block must still be known to
+    // F (N is only ever shown non-outdated blocks, F is shown everything; `rm` runs on both) - finalization may
+    // deallocate outdated blocks only
+    for (auto* j : N.tree.getBlocks()) {
+      auto id = reg->nameOf(j->getHash());
+      if (outdated(fin, id)) continue;
+      n++;
+      if (F.idx(id) == nullptr) {
+        bad++;
+        if (first.empty()) first = "F:<missing non-outdated block " + id + "> N:" + altLine(*j, false);
+      }
+    }
     for (auto* i : F.tree.vbk().getBlocks()) {
       auto* j = N.tree.vbk().getBlockIndex(i->getHash());
       if (j == nullptr) { cmpl(vbkLine(*i, false, false, true), "<missing>"); continue; }
